@@ -16,7 +16,7 @@
 //   o <h> ...                                        Circuit::m_nodes in storage order
 //   n <h> <id> <sig> <ref> <grp|-> <nIn> <d.p|-|?>… <nOut> {<kind> <width> <nCons> <c.p|?>…}… <nClk> <clk|-|?>…
 //   g <gid> <n> <h|?>…                                NodeGroup::m_nodes in order
-//   k <cid> <n> <h.p|?>…                              Clock::getClockedNodes(), sorted
+//   k <cid> <n> <h.p|?>…                              Clock::getClockedNodes(), sorted    (k <cid> x : the clock has been destroyed)
 //   t <h> <KIND> …                                    (design mode) node kind and the parameters the type check needs
 //   .
 // A pointer that does not belong to a live node / group / clock of this circuit is printed as '?' without being dereferenced.
@@ -39,6 +39,7 @@
 #include <gatery/hlim/coreNodes/Node_Pin.h>
 #include <gatery/hlim/coreNodes/Node_PriorityConditional.h>
 #include <gatery/hlim/supportNodes/Node_External.h>
+#include <gatery/hlim/supportNodes/Node_MemPort.h>
 #include <gatery/hlim/postprocessing/MemoryDetector.h>
 #include <gatery/hlim/postprocessing/DefaultValueResolution.h>
 #include <gatery/hlim/postprocessing/AttributeFusion.h>
@@ -62,8 +63,8 @@ struct Maps {
 	std::map<const BaseNode*, size_t> node;
 	std::vector<const hlim::NodeGroup*> groups;
 	std::map<const hlim::NodeGroup*, size_t> group;
-	std::vector<const hlim::Clock*> clocks;
-	std::map<const hlim::Clock*, size_t> clock;
+	std::vector<const hlim::Clock*> clocks;        // nullptr = destroyed
+	std::map<const hlim::Clock*, size_t> clock;    // live clocks only
 };
 
 static void collectGroups(const hlim::NodeGroup *g, Maps &m) {
@@ -135,6 +136,7 @@ static void dumpGraph(std::ostream &o, const hlim::Circuit &c, const Maps &m, bo
 		o << '\n';
 	}
 	for (size_t k = 0; k < m.clocks.size(); k++) {
+		if (m.clocks[k] == nullptr) { o << "k " << k << " x\n"; continue; }
 		auto cn = m.clocks[k]->getClockedNodes();
 		std::vector<std::pair<size_t, size_t>> known; size_t unknown = 0;
 		for (auto &p : cn) { auto it = m.node.find(p.node); if (it == m.node.end()) unknown++; else known.push_back({it->second, p.port}); }
@@ -175,11 +177,13 @@ struct XNode : public hlim::Node_External {
 struct OpsCase {
 	Rng &rng;
 	std::ostream &o;
-	hlim::Circuit circuit;
+	std::unique_ptr<hlim::Circuit> circuitPtr = std::make_unique<hlim::Circuit>();
+	hlim::Circuit &circuit = *circuitPtr;
 	Maps m;
 	std::vector<BaseNode*> byHandle;           // nullptr once destroyed
 	std::vector<hlim::NodeGroup*> groups;
-	std::vector<hlim::Clock*> clocks;
+	std::vector<hlim::Clock*> clocks;              // nullptr = destroyed
+	std::vector<std::unique_ptr<hlim::Clock>> ownClocks;   // clocks that do not belong to the circuit (can be destroyed at any time)
 	std::vector<std::pair<size_t, hlim::NodePtr<BaseNode>>> ptrs;  // NodePtr handles held by "the frontend"
 
 	OpsCase(Rng &r, std::ostream &os) : rng(r), o(os) {
@@ -199,6 +203,19 @@ struct OpsCase {
 		for (size_t h = 0; h < byHandle.size(); h++) if (byHandle[h] && !still.count(byHandle[h])) byHandle[h] = nullptr;
 		m.node = std::move(still);
 	}
+	// after an operation that may have created nodes / clocks inside the library (copySubnet): hand out handles in creation order
+	void adoptNew() {
+		for (auto &n : circuit.getNodes())
+			if (!m.node.count(n.get())) { m.node[n.get()] = byHandle.size(); byHandle.push_back(n.get()); }
+		m.size = byHandle.size();
+		for (auto &c : circuit.getClocks())
+			if (!m.clock.count(c.get())) { m.clock[c.get()] = clocks.size(); m.clocks.push_back(c.get()); clocks.push_back(c.get()); }
+	}
+	std::vector<size_t> liveClocks() const {
+		std::vector<size_t> v;
+		for (size_t c = 0; c < clocks.size(); c++) if (clocks[c]) v.push_back(c);
+		return v;
+	}
 	void dump() { dumpGraph(o, circuit, m, false); }
 
 	std::string target(bool allowNull, NodePort &out) {
@@ -217,6 +234,7 @@ struct OpsCase {
 		catch (const utils::InternalError &) { o << "r e\n"; }
 		catch (const utils::DesignError &) { o << "r e\n"; }
 		syncLive();
+		adoptNew();
 		dump();
 	}
 
@@ -228,7 +246,9 @@ struct OpsCase {
 		else if (k < 75) { n = circuit.createNode<hlim::Node_Register>(); kn = "R"; }
 		else if (k < 83) { n = circuit.createNode<hlim::Node_Multiplexer>(1 + rng.below(3)); kn = "M"; }
 		else if (k < 90) { n = circuit.createNode<hlim::Node_Logic>(hlim::Node_Logic::AND); kn = "L"; }
-		else if (k < 96) { n = circuit.createNode<hlim::Node_Rewire>(1 + rng.below(3)); kn = "W"; }
+		else if (k < 93) { n = circuit.createNode<hlim::Node_Rewire>(1 + rng.below(3)); kn = "W"; }
+		else if (k < 95) { n = circuit.createNode<hlim::Node_Pin>(true, false, false); kn = "P"; }
+		else if (k < 98) { n = circuit.createNode<hlim::Node_MemPort>(1 + rng.below(4)); kn = "T"; }
 		else { n = circuit.createNode<hlim::Node_Constant>(true); kn = "C"; }
 		size_t h = byHandle.size();
 		byHandle.push_back(n); m.node[n] = h; m.size = byHandle.size();
@@ -245,7 +265,45 @@ struct OpsCase {
 		size_t h = lv[rng.below(lv.size())];
 		BaseNode *n = byHandle[h];
 		std::string hs = std::to_string(h);
-		if (op < 42) { // rewireInput == NodeIO::connectInput
+		if (op >= 34 && op < 39) { // Circuit::createUnconnectedClone, then (often) the clone joins the clock domain of its source
+			exec("clone " + hs, [&] { circuit.createUnconnectedClone(n); });
+			size_t hc = byHandle.size() - 1;
+			BaseNode *cl = byHandle[hc];
+			if (cl == nullptr || cl == n) return;
+			for (size_t p = 0; p < n->getClocks().size() && p < cl->getClocks().size(); p++) {
+				hlim::Clock *c = n->getClocks()[p];
+				if (c == nullptr || !m.clock.count(c) || !rng.chance(2, 3)) continue;
+				size_t ci = m.clock[c];
+				if (rng.chance(1, 5)) { auto lc = liveClocks(); ci = lc[rng.below(lc.size())]; }   // sometimes another clock
+				exec("attach " + std::to_string(hc) + " " + std::to_string(p) + " " + std::to_string(ci), [&] { cl->attachClock(clocks[ci], p); });
+			}
+			if (rng.chance(1, 3) && cl->getNumInputPorts() > 0 && n->getNumOutputPorts() > 0) {
+				size_t i = rng.below(cl->getNumInputPorts()), po = rng.below(n->getNumOutputPorts());
+				exec("connect " + std::to_string(hc) + " " + std::to_string(i) + " " + hs + "." + std::to_string(po), [&] { cl->rewireInput(i, {.node = n, .port = po}); });
+			}
+			if (rng.chance(1, 4)) { // delete the original or the clone right away
+				auto &v = circuit.getNodes();
+				BaseNode *victim = rng.chance(1, 2) ? n : cl;
+				size_t i = 0; while (i < v.size() && v[i].get() != victim) i++;
+				if (i < v.size() && !victim->hasRef())
+					exec("erase " + std::to_string(i), [&] { if (i + 1 != v.size()) v[i] = std::move(v.back()); v.pop_back(); });
+			}
+		} else if (op >= 39 && op < 42) { // Circuit::copySubnet of the cone behind some outputs, cut at some inputs
+			if (lv.size() > 16) return;
+			utils::StableSet<NodePort> ins, outs;
+			for (size_t k = 1 + rng.below(2); k > 0; k--) { NodePort d; target(false, d); if (d.node) outs.insert(d); }
+			if (outs.empty()) return;
+			for (size_t k = rng.below(4); k > 0; k--) {
+				BaseNode *x = byHandle[lv[rng.below(lv.size())]];
+				if (x->getNumInputPorts()) ins.insert({.node = x, .port = rng.below(x->getNumInputPorts())});
+			}
+			bool cc = rng.chance(1, 2);
+			std::string line = "copysubnet " + std::to_string(cc ? 1 : 0) + " " + std::to_string(ins.size());
+			for (auto &p : ins) line += " " + np(m, p);
+			line += " " + std::to_string(outs.size());
+			for (auto &p : outs) line += " " + np(m, p);
+			exec(line, [&] { utils::StableMap<BaseNode*, BaseNode*> map; circuit.copySubnet(ins, outs, map, cc); });
+		} else if (op < 42) { // rewireInput == NodeIO::connectInput
 			if (n->getNumInputPorts() == 0) { newNode(); return; }
 			size_t i = rng.below(n->getNumInputPorts());
 			NodePort d; std::string ds;
@@ -298,14 +356,27 @@ struct OpsCase {
 			size_t g = rng.below(groups.size());
 			exec("group " + hs + " " + (toNull ? std::string("-") : std::to_string(g)), [&] { n->moveToGroup(toNull ? nullptr : groups[g]); });
 		} else if (op < 89) { // clocks
-			if (clocks.size() < 3 && (clocks.empty() || rng.chance(1, 6))) {
-				auto *c = circuit.createClock<hlim::RootClock>("clk", hlim::ClockRational(1000, 1));
+			auto lc = liveClocks();
+			if (lc.size() < 3 && clocks.size() < 12 && (lc.empty() || rng.chance(1, 6))) {
+				hlim::Clock *c;
+				bool own = rng.chance(1, 2);
+				if (own) { ownClocks.push_back(std::make_unique<hlim::RootClock>("clk", hlim::ClockRational(1000, 1))); c = ownClocks.back().get(); }
+				else c = circuit.createClock<hlim::RootClock>("clk", hlim::ClockRational(1000, 1));
 				m.clock[c] = clocks.size(); m.clocks.push_back(c); clocks.push_back(c);
-				o << "op newclock\nr ok\n"; dump();
+				o << "op newclock " << (own ? "own" : "circuit") << "\nr ok\n"; dump();
 				return;
 			}
+			if (rng.chance(1, 12)) { // destroy a clock that does not belong to the circuit while nodes may still be attached
+				for (auto &oc : ownClocks) if (oc && rng.chance(1, 2)) {
+					size_t ci = m.clock[oc.get()];
+					exec("killclock " + std::to_string(ci), [&] { m.clock.erase(oc.get()); m.clocks[ci] = nullptr; clocks[ci] = nullptr; oc.reset(); });
+					return;
+				}
+				return;
+			}
+			if (lc.empty()) return;
 			bool toNull = rng.chance(1, 6);
-			size_t c = rng.below(clocks.size());
+			size_t c = lc[rng.below(lc.size())];
 			std::string cs = toNull ? "-" : std::to_string(c);
 			size_t nc = n->getClocks().size();
 			if (nc == 0 || rng.chance(1, 8)) { if (nc < 3) exec("addclock " + hs + " " + cs, [&] { n->addClock(toNull ? nullptr : clocks[c]); }); }
@@ -341,7 +412,21 @@ static void runOpsCase(Rng &rng, uint64_t id, size_t nops) {
 		OpsCase c(rng, std::cout);
 		for (size_t i = 0; i < nops; i++) c.step();
 		c.ptrs.clear();
-		// circuit, groups, clocks are torn down here (members in reverse order: clocks first, then groups, then nodes)
+		// tear everything down in one of several orders (matters under the sanitizers: a stale registration or clock pointer is
+		// dereferenced by ~BaseNode / ~Clock)
+		unsigned order = (unsigned) rng.below(4);
+		std::cout << "# teardown " << order << "\n";
+		if (order == 0) c.ownClocks.clear();                       // clocks outside the circuit first, then the circuit
+		else if (order == 1) { c.circuitPtr.reset(); c.ownClocks.clear(); }   // circuit (its clocks, groups, nodes) first
+		else if (order == 2) {                                       // nodes one by one in random order, then clocks, then the rest
+			auto &v = c.circuit.getNodes();
+			while (!v.empty()) { size_t i = rng.below(v.size()); if (i + 1 != v.size()) v[i] = std::move(v.back()); v.pop_back(); }
+			c.ownClocks.clear();
+		} else {                                                     // alternate: some clocks, all nodes (back to front), remaining clocks
+			for (auto &oc : c.ownClocks) if (rng.chance(1, 2)) oc.reset();
+			auto &v = c.circuit.getNodes();
+			while (!v.empty()) v.pop_back();
+		}
 	}
 	std::cout << "end\n";
 }
